@@ -289,3 +289,18 @@ package unmarshal
 //@              p.attrs.MTraceId[old(len(p.attrs.MKey)) + k] == traceId && p.attrs.MSpanId[old(len(p.attrs.MKey)) + k] == spanId &&
 //@              p.attrs.MTimestampNs[old(len(p.attrs.MKey)) + k] == timestampNs && p.attrs.MDurationNs[old(len(p.attrs.MKey)) + k] == durationNs
 //@     modifies fields(p.attrs)
+
+// ---------------------------------------------------------------- recover scopes of the parser goroutines (C05)
+
+// Decoders run in these goroutines; each must start by deferring tamePanic, so
+// that a panic while decoding hostile input becomes an error response instead
+// of ending the process. (The bodies themselves are not verified here.)
+//@ func (*parserDoer).doParseLogs$1 [C05]
+//@   flag defers-first=.tamePanic
+//@   flag may-panic
+//@ func (*parserDoer).doParseSpans$1 [C05]
+//@   flag defers-first=.tamePanic
+//@   flag may-panic
+//@ func (*parserDoer).doParseProfile$1 [C05]
+//@   flag defers-first=.tamePanic
+//@   flag may-panic
